@@ -135,7 +135,7 @@ fn data_for(d: DataPart, header: usize) -> Vec<u8> {
     pattern(n, 5)
 }
 
-fn body(c: &Case) -> Result<(), String> {
+pub fn body(c: &Case) -> Result<(), String> {
     let (tx, rx) = ipc::channel::<Big>().map_err(|e| e.to_string())?;
     let (items, kept) = build(c.count, c.mix)?;
     // serialised size without the data bytes: 8 (items len) + per item 4 (variant) + 8 (index) + 8 (data len)
@@ -168,7 +168,7 @@ fn body(c: &Case) -> Result<(), String> {
     }
 }
 
-fn cfg_of(_: &Case) -> Cfg {
+pub fn cfg_of(_: &Case) -> Cfg {
     Cfg { sched: true, fake_sndbuf: Some(4608), ..Default::default() }
 }
 
